@@ -6,16 +6,19 @@ From TP Require Import Model.Prelude Extracted Model.Toxics Model.Timed Proofs.S
 Theorem C13_slow_close_data : forall d ps now draws (c : chunk),
   on_input (TSlowClose d) ps now draws (Some c) (Idle 0 None) = (Send c (KIdle 0), draws).
 Proof. exact slow_close_data. Qed.
+Print Assumptions C13_slow_close_data.
 
 Theorem C13_slow_close_delay : forall d ps now draws,
   on_input (TSlowClose d) ps now draws None (Idle 0 None) = (ScWait (now + slow_close_ns d), draws) /\
   (forall now', on_timer (TSlowClose d) now' (ScWait (now + slow_close_ns d)) = Closing) /\
   (ms_ok d -> slow_close_ns d = d * 1000000).
 Proof. exact slow_close_wait. Qed.
+Print Assumptions C13_slow_close_delay.
 
 Theorem C13_slow_close_interrupt : forall d now dl,
   on_interrupt now (ScWait dl) = Exited /\ init_state (TSlowClose d) None now = Idle 0 None.
 Proof. exact slow_close_interrupt. Qed.
+Print Assumptions C13_slow_close_interrupt.
 
 Theorem C13_reset_peer : forall t ps now draws (c : option chunk),
   on_input (TResetPeer t) ps now draws c (Idle 0 None) = (RpWait (now + reset_peer_ns t), draws) /\
@@ -25,13 +28,16 @@ Theorem C13_reset_peer : forall t ps now draws (c : option chunk),
   (forall now', on_interrupt now' (RpWait (now + reset_peer_ns t)) = RpWait (now + reset_peer_ns t)) /\
   (ms_ok t -> reset_peer_ns t = t * 1000000).
 Proof. exact reset_peer_first. Qed.
+Print Assumptions C13_reset_peer.
 
 Theorem C13_not_early : forall l i l',
   stub_timer l i = Some l' ->
   exists s dl, nth_error (l_stubs l) i = Some s /\ stub_deadline s = Some dl /\ dl <= l_now l.
 Proof. exact timer_not_early. Qed.
+Print Assumptions C13_not_early.
 
 (** link.go's Start sets SO_LINGER 0 on both sockets, for a reset_peer toxic present at connect
     time, before the writer of that link (the only closer of its destination) is started *)
 Theorem C13_linger_before_writer : start_sets_linger_before_writer = true.
 Proof. reflexivity. Qed.
+Print Assumptions C13_linger_before_writer.
